@@ -49,7 +49,7 @@ ASSUMPTIONS = [
 ]
 
 SETTINGS = {'disk_min_file_size': 8}
-EXPECTED_SIGS = ('abort_lost_file', 'abort_lost_file_pop', 'abort_orphan_file', 'iter_not_atomic', 'uncommitted_removal_visible', 'fanout_commit_not_atomic')
+EXPECTED_SIGS = ('iter_not_atomic', 'fanout_commit_not_atomic')
 TRACE_RECORDS = []
 OK_EXC = ('Timeout', 'KeyError', 'TypeError', 'IndexError', 'ValueError')
 WRITE_SQL = ('sql:INSERT', 'sql:UPDATE', 'sql:DELETE', 'sql:UPDATE-SETTINGS', 'sql:COMMIT', 'sql:ROLLBACK')
@@ -278,10 +278,27 @@ def check_run(r, case, stats):
             if closing is None or not any(q['op'] in RELEASING for q in inner):
                 continue
             lo, hi = b['last'] if b.get('last') is not None else 0, closing['last'] if closing.get('last') is not None else len(log)
+            ends = [s_ for s_ in range(closing.get('first') or 0, (closing.get('last') or -1) + 1)
+                    if log[s_][0] == 0 and log[s_][1] in ('sql:COMMIT', 'sql:ROLLBACK')]
+            if ends:
+                hi = min(ends)          # (removals after the COMMIT are the ordinary cleanup of a committed block)
+            # steps at which a client's attempt to open a value file failed (the next event of that client is not the read)
+            failed_steps = {}
+            last_open = {}
+            for s_, (cid_, what_, _d) in enumerate(log):
+                if cid_ in last_open and what_ != 'file:read':
+                    failed_steps.setdefault(cid_, []).append(last_open[cid_])
+                last_open.pop(cid_, None)
+                if what_ == 'file:open-read':
+                    last_open[cid_] = s_
+            for cid_, s_ in last_open.items():
+                failed_steps.setdefault(cid_, []).append(s_)
             for recs in r['calls'][1:]:
                 for rec in recs:
-                    if rec.get('first') is not None and rec['first'] <= hi and rec['last'] >= lo and failed_open(rec.get('events', [])):
-                        early.add(id(rec['call']))
+                    if rec.get('first') is None:
+                        continue
+                    if any(lo <= s_ <= hi and rec['first'] <= s_ <= rec['last'] for s_ in failed_steps.get(rec['client'], [])):
+                        early.add(id(rec['call']))      # the open failed while the block's transaction was still open
         if kind == 'fanout' and fanout_split_explains(r['calls'], init, fin, shards):
             sig = 'fanout_commit_not_atomic'
         elif linearize(acts, init, None, tolerate=True) is not None:
@@ -313,88 +330,9 @@ def filed_value(v):
 
 
 def classify(out, r, case, snap, spans):
-    """Attribute the violations of an ABORTED block to finding D8 when, and only when, they are all explained by it:
-    the aborted body contains a call that releases the value file of key k (k held a file-backed value), and once
-    lookups of such keys and their final values are left unconstrained everything else is explained."""
-    kind, setup = case['kind'], case['setup']
-    aborted = [(b, inner) for b, inner, closing, a in spans if a]
-    if not aborted or snap is None:
-        return out
-    sigs = set(s for s, _ in out)
-    if not sigs <= {'abort_changed_state', 'missing_file', 'unknown_file', 'size_drift', 'block_not_atomic', 'final_contents_unexplained', 'not_linearizable', 'iter_not_atomic',
-                    'uncommitted_removal_visible'}:
-        return out
-    body = [q['call'] for _, inner in aborted for q in inner if q['op'] not in concdrv.BLOCK_OPS]
-    body_ops = [c['op'] for c in body]
-    everything = list(setup) + [c for p in case['programs'] for c in p]
-    filed_keys = set(c.get('key') for c in everything if filed_value(c.get('value')) or filed_value(c.get('default')))
-    any_filed = any(filed_value(c.get('value')) or filed_value(c.get('default')) for c in everything)
-    cand_all = False
-    if kind in ('deque',):
-        cand_all = any_filed and any(o in RELEASING for o in body_ops)
-        cand = set(x[0] for x in snap['items']) if cand_all else set()
-    else:
-        cand = set(c.get('key') for c in body if c['op'] in RELEASING and c.get('key') in filed_keys)
-        if any(c['op'] in ('popitem', 'clear') for c in body) and any_filed:
-            cand |= filed_keys
-    lost_now = set(x[0] for x in snap['items'] if x[2] == MISS and x[5] and (x[1] or kind == 'deque'))
-    orphan = [t for s, t in out if s == 'unknown_file']
-    stores_file = any(filed_value(c.get('value')) or filed_value(c.get('default')) for c in body)
-    if orphan and not stores_file:
-        return out
-
-    def with_orphan(o):
-        # the leftover file of an aborted body that stored a file-backed value is the orphan finding, whatever else is wrong
-        if not orphan:
-            return o
-        only = r.get('before') is not None and all(r['before'][k_] == snap[k_] for k_ in ('items', 'len', 'counters'))
-        return [(s_, t_) for s_, t_ in o if s_ != 'unknown_file' and not (s_ == 'abort_changed_state' and only)] + \
-               [('abort_orphan_file', 'an aborted block (%s) left %d value file(s) it had stored: %s' % (','.join(body_ops), len(orphan), orphan[0]))]
-    if not lost_now <= cand:
-        return with_orphan(out)
-    if not cand and not orphan and not cand_all:
-        return with_orphan(out)
-    acts = actions_with_blocks(r['calls'])
-    init = make_ref(kind, setup)
-
-    def wild(call):
-        if kind == 'deque':
-            return cand_all
-        return call.get('key') in cand or (bool(cand) and call['op'] in ('items', 'popitem', 'peekitem'))
-    # (a Deque silently drops an element whose file is gone when it is pulled, so its final length is unconstrained too)
-    fin = None if cand_all else final_matches(kind, snap, ignore_values=cand)
-    if linearize(acts, init, fin, tolerate=True, wild=wild) is None:
-        return with_orphan(out)
-    new = []
-    # evidence that a value file really was lost: a row without file at the end, or a lookup of a candidate key that
-    # missed after the rollback although the key is (still) reported present
-    rollback_step = max([q['last'] or 0 for recs in [r['calls'][0]] for q in recs if q['op'] == 'raise_in_block' and not q.get('skipped')] + [0])
-    missed_after = any(rec.get('last') is not None and rec['last'] > rollback_step and
-                       (rec.get('result') == MISS or rec.get('exc') in ('KeyError', 'IndexError')) and
-                       (cand_all or rec['call'].get('key') in cand or rec['op'] in ('items',))
-                       for recs in r['calls'] for rec in recs if not rec.get('skipped'))
-    def failed_open(evs):
-        return any(e == 'file:open-read' and (i + 1 == len(evs) or evs[i + 1] != 'file:read') for i, e in enumerate(evs))
-    open_failed_after = any(rec.get('last') is not None and rec['last'] > rollback_step and failed_open(rec.get('events', []))
-                            for recs in r['calls'] for rec in recs if not rec.get('skipped'))
-    evidence_lost = bool(lost_now) or 'missing_file' in sigs or missed_after or open_failed_after
-    if evidence_lost and (cand or cand_all):
-        popping = any(o in POPPING for o in body_ops) and not any(o in RELEASING and o not in POPPING for o in body_ops)
-        new.append(('abort_lost_file_pop' if popping else 'abort_lost_file',
-                    'an aborted block (%s) removed the value file of %s: the row is restored (key reported present) but reading it '
-                    'yields a miss and check() reports a missing file' % (','.join(body_ops), sorted(map(repr, lost_now or cand)))))
-    if orphan:
-        new.append(('abort_orphan_file', 'an aborted block (%s) left %d value file(s) it had stored: %s' % (','.join(body_ops), len(orphan), orphan[0])))
-    only_files = r.get('before') is not None and all(r['before'][k] == snap[k] for k in ('items', 'len', 'counters'))
-    rest = sigs - {'unknown_file'} - ({'abort_changed_state'} if only_files else set())
-    if rest and not (evidence_lost and (cand or cand_all)):
-        # something other than a leftover file is wrong and no file was lost: not D8; the leftover file itself is
-        # still the orphan finding (the aborted body stored a file-backed value)
-        if orphan:
-            return [(s_, t_) for s_, t_ in out if s_ != 'unknown_file' and not (s_ == 'abort_changed_state' and only_files)] + \
-                   [('abort_orphan_file', 'an aborted block (%s) left %d value file(s) it had stored: %s' % (','.join(body_ops), len(orphan), orphan[0]))]
-        return with_orphan(out)
-    return new or out
+    """(Until the repair recorded under C06-F1 this re-attributed the violations of an aborted block that had released a value
+    file to that defect.  Nothing is re-attributed any more: whatever the monitors find is reported under its own signature.)"""
+    return out
 
 
 # ---------------------------------------------------------------------------
